@@ -173,14 +173,16 @@ theorem useCandidate_nominated_mono (x : St) (k : Sock) (a : Addr) :
     (useCandidate x k a).nominated = x.nominated ∨ (useCandidate x k a).nominated = some true := by
   unfold useCandidate; repeat' split
   all_goals simp
+theorem toConnected_mono (st : IceState) : toConnected st = st ∨ toConnected st = .connected := by
+  unfold toConnected; split <;> simp [*]
 theorem tcpNominate_state_mono (x : St) (k : Sock) (a : Addr) :
     (tcpNominate x k a).state = x.state ∨ (tcpNominate x k a).state = .connected := by
   unfold tcpNominate withPairConnected; repeat' split
-  all_goals simp
+  all_goals first | exact toConnected_mono _ | simp
 theorem useCandidate_state_mono (x : St) (k : Sock) (a : Addr) :
     (useCandidate x k a).state = x.state ∨ (useCandidate x k a).state = .connected := by
   unfold useCandidate; repeat' split
-  all_goals simp
+  all_goals first | simp; done | (simp only [publish_state]; exact toConnected_mono _)
 
 theorem handleAuthenticated_nominated_mono (s : St) (k : Sock) (a : Addr) (r : Req) :
     (handleAuthenticated s k a r).nominated = s.nominated ∨ (handleAuthenticated s k a r).nominated = some true := by
